@@ -1,4 +1,5 @@
 import Asts.Driver.Ordinals
+import Asts.Driver.Reconcile
 open Asts.Driver
 
 /-- one input line `<case> => <impl observation>`; one output line `<model observation>\t<monitor verdict>\t<branch tag>` -/
@@ -7,6 +8,7 @@ def dispatch (engine : String) (line : String) : String :=
   | [cas, obs] =>
     match engine with
     | "ordinals" => stepOrdinals cas obs
+    | "reconcile" => stepReconcile cas obs
     | _ => "unknown-engine\tok\tbad"
   | _ => "bad-line\tok\tbad"
 
